@@ -630,6 +630,12 @@ def real_state(sim, nreal, only=None):
     return [[ps[i].x, ps[i].y, ps[i].z, ps[i].vx, ps[i].vy, ps[i].vz] for i in idx]
 
 
+def real_rows(parts, nreal, only=None):
+    """[[x,y,z,vx,vy,vz]] rows of a particle list [[m,x,y,z,vx,vy,vz], ...] as real_state returns them."""
+    idx = range(nreal) if only is None else [only]
+    return [list(parts[i][1:7]) for i in idx]
+
+
 def snorm(rows, base):
     """Scaled max norm of a list of 6-vectors."""
     m = 0.0
@@ -721,6 +727,7 @@ def run_evolve(case, ctx):
         if j2 == j and p not in CART and p != "mc":
             v2.vary(j, p, q, primary=base.prim)
         # otherwise the second derivative of the initial state is zero (independent coordinates)
+    vb0_mag = snorm(var_state(sim, vb, nreal), base) if order == 2 else 0.0
     advance(sim, base, case)
 
     # step in the differenced parameter: natural scale / (phase winding over the horizon)
@@ -821,7 +828,23 @@ def run_evolve(case, ctx):
     else:
         Rn = max(R, snorm(V1, base) * snorm(V1b, base))
     base_term = K_BASE * dbase * shear * Rn
-    rnd_term = (K_RND_EV * 1.5 * delta + K_INV * dinv) / h
+    # The noise of a shadow end state is the noise of the map (rounding; for WHFast also the stopping criterion of the
+    # Kepler solver when a step does not resolve pericentre) amplified by the growth of perturbations over the
+    # horizon.  DELTA_SHADOW was measured on orbits whose growth is the phase winding; orbits with e ~ 0.8 amplify by
+    # 1e3..1e4 (|variation| 2e3..2e4), and there the error of the quotient was measured to grow like 1/h as h is
+    # reduced (1e-4 at h, 4e-4 at h/8): noise, not truncation.  The growth is taken from the oracle side: size of the
+    # finite-difference derivative at T over the size of the derivative of the initial state (order 2: growth of the
+    # differenced first-order variation), in units of the winding already contained in DELTA_SHADOW.
+    if order == 1:
+        s_p = real_rows(base.state([(j, p, h)], fams), nreal, j if tp else None)
+        s_m = real_rows(base.state([(j, p, -h)], fams), nreal, j if tp else None)
+        d0 = snorm(comb([s_m, s_p], [-0.5 / h, 0.5 / h]), base)
+        growth = Dmag / max(d0, state_mag / sc)
+    else:
+        growth = snorm(V1b, base) / vb0_mag if vb0_mag > 0 else 1.0
+    amp = max(1.0, growth / wind)
+    ctx.stat_max("growth/winding", amp)
+    rnd_term = (K_RND_EV * 1.5 * delta * amp + K_INV * dinv) / h
     tol = Efd + rnd_term + kint * Rn + base_term
     ratio = err / tol if tol > 0 else 0.0
     if hasattr(ctx, "trace"):     # development aid (tools only; the runner's Ctx has no such attribute)
